@@ -25,6 +25,7 @@ from proto import A, dumps
 from run import Case
 import zoo
 from props import c08 as P8
+import zoo_c08
 from props import c07 as P7
 
 PROPERTY = "C17"
@@ -43,7 +44,11 @@ RULE = ("texts: (a) grammar-derived well-formed patterns / xpaths rendered with 
         "(c) unknown and non-node class names, (d) random token sequences and random strings over the grammars' "
         "alphabet (letters, digits, _, the punctuation of both grammars, the five WS characters, double quote and backslash; "
         "non-ASCII only inside quoted strings), (e) pairs of accepted texts that differ only by a white-space run inside a quoted "
-        "regex, each observed right after the other (and a re-spacing of it) was compiled; outcome class + behaviour on 9 probe trees for every entry point; "
+        "regex, each observed right after the other (and a re-spacing of it) was compiled, (f) grammatical patterns whose regex does "
+        "not compile, (g) order-of-definition histories: xpath and pattern texts naming a class that does not exist yet "
+        "(rejected), then the class is defined (fresh frozen dataclass deriving from zoo.Leaf) and the same and new texts "
+        "must be accepted and behave per model (class table with the new class); every iteration runs under one of the "
+        "configurations plain / library loggers at DEBUG / pyoak.config.TRACE_LOGGING / both (outcomes must not change); outcome class + behaviour on 9 probe trees for every entry point; "
         "non-trivial = text longer than 3 characters; distinct by text")
 TRUSTED = ["lark LALR engine + contextual lexer re-modelled by hand-written recursive-descent parsers",
            "re.compile success is an input of the model (list of the quoted strings of the text that do not compile)",
@@ -121,27 +126,38 @@ def make_probes():
     ]
 
 
+class PSet:
+    """a battery of probe trees with its encoding and the class table sent to the model"""
+
+    def __init__(self, probes, extra_rows=(), xprobe=0):
+        self.probes = probes
+        self.ptok = []
+        self.penc = []
+        orgs = zoo.OrgTable()
+        for p in probes:
+            t = zoo.Tokens()
+            self.penc.append(zoo.enc_tree(p, t, orgs))
+            self.ptok.append(t)
+        self.env = [zoo.class_table() + [list(r) for r in extra_rows], orgs.sexp(), [A("nonnode")] + P8.NONNODE]
+        self.xi = xprobe
+        self.xprobe = probes[xprobe]
+        self.xnodes = [self.xprobe] + [c for (c, p, f, i) in zoo.positions(self.xprobe)]
+
+
 PROBES = make_probes()
-_PTOK = []
-_PENC = []
-_ORGS = zoo.OrgTable()
-for _p in PROBES:
-    _t = zoo.Tokens()
-    _PENC.append(zoo.enc_tree(_p, _t, _ORGS))
-    _PTOK.append(_t)
-ENV = [zoo.class_table(), _ORGS.sexp(), [A("nonnode")] + P8.NONNODE]
+DEFAULT = PSet(PROBES, xprobe=4)
+_PTOK = DEFAULT.ptok
+_PENC = DEFAULT.penc
+ENV = DEFAULT.env
 
 
-def res_sx(i, ok, caps):
-    return [A("ok"), bool(ok), P8.caps_sx(_PTOK[i], caps)]
-
-
-def behaviour(match_fn):
+def behaviour(match_fn, ps=None):
+    ps = ps or DEFAULT
     out = []
-    for i, p in enumerate(PROBES):
+    for i, p in enumerate(ps.probes):
         try:
             ok, caps = match_fn(p)
-            out.append(res_sx(i, ok, caps))
+            out.append([A("ok"), bool(ok), P8.caps_sx(ps.ptok[i], caps)])
         except ASTPatternDefinitionError:
             out.append([A("raise"), A("ASTPatternDefinitionError")])
         except Exception as e:  # noqa
@@ -152,8 +168,14 @@ def behaviour(match_fn):
 REJECT = dumps([A("raise"), A("ASTPatternDefinitionError")])
 
 
-def observe_pattern(text: str, probes: bool, pre: tuple = ()):
-    """canonical outcome per entry point; `pre`: texts compiled (and cached) just before"""
+def observe_pattern(text: str, probes: bool, pre: tuple = (), ps=None, cfg: str = "plain"):
+    """canonical outcome per entry point; `pre`: texts compiled (and cached) just before; `cfg`: logging / tracing
+    configuration under which everything runs (must not matter)"""
+    with zoo_c08.configured(cfg):
+        return _observe_pattern(text, probes, pre, ps or DEFAULT)
+
+
+def _observe_pattern(text, probes, pre, ps):
     outs = {}
     try:
         ok, _ = validate_pattern(text)
@@ -169,7 +191,7 @@ def observe_pattern(text: str, probes: bool, pre: tuple = ()):
             if m is None:
                 outs[key] = REJECT
             else:
-                outs[key] = dumps([A("ok")] + (behaviour(m.match) if probes else []))
+                outs[key] = dumps([A("ok")] + (behaviour(m.match, ps) if probes else []))
         except Exception as e:  # noqa
             outs[key] = f"OTHER({type(e).__name__})"
     try:
@@ -179,7 +201,7 @@ def observe_pattern(text: str, probes: bool, pre: tuple = ()):
             r = mm.match(p)
             return (False, {}) if r is None else (True, r[1])
 
-        outs["multi"] = dumps([A("ok")] + (behaviour(via_multi) if probes else []))
+        outs["multi"] = dumps([A("ok")] + (behaviour(via_multi, ps) if probes else []))
     except ASTPatternDefinitionError:
         outs["multi"] = REJECT
     except Exception as e:  # noqa
@@ -191,10 +213,12 @@ _STR_FIELDS = "s|tag|name|lit|a|b"
 _RE_ON_NODE = re.compile(r"@\s*(?:items|pair|left|right|arg|c|z|a|child|root|extra|t|tf)\s*=\s*\"\"")
 _RE_IN_SEQ = re.compile(r"\[[^\]]*\"\"")
 _FLOAT_FIELD = re.compile(r"@\s*fl(?![A-Za-z0-9_])")
-_SEQ_ON_STR = re.compile(r"@\s*(?:" + _STR_FIELDS + r")\s*=\s*\[")
+# a NON-EMPTY bracketed sequence against a str value is a don't-care point; `[]` is not (only the empty tuple)
+_SEQ_ON_STR = re.compile(r"@\s*(?:" + _STR_FIELDS + r")\s*=\s*\[(?!\s*\])")
 
 
-def pattern_case(text: str, kind: str, expect_accept: bool | None = None, pre: tuple = ()):
+def pattern_case(text: str, kind: str, expect_accept: bool | None = None, pre: tuple = (), ps=None, cfg: str = "plain"):
+    ps = ps or DEFAULT
     qs = quoted(text)
     probes = all(rx_supported(c) for c in qs)
     bare = _ESC.sub('""', text)
@@ -204,7 +228,7 @@ def pattern_case(text: str, kind: str, expect_accept: bool | None = None, pre: t
         probes = False      # C08 don't-care point: a regex against a node- or tuple-valued field / sequence element
     if "$" in bare and _FLOAT_FIELD.search(bare):
         probes = False      # outside the value model: a float compared with a non-float by a $variable (0.0 == 0)
-    outs = observe_pattern(text, probes, pre)
+    outs = observe_pattern(text, probes, pre, ps, cfg)
     real = outs["cold"]
     oracle = None
     sig = "pattern|model"
@@ -226,9 +250,10 @@ def pattern_case(text: str, kind: str, expect_accept: bool | None = None, pre: t
         elif expect_accept is False and real != REJECT:
             oracle = "a pattern with an unknown / non-node class, a repeated capture name or an unbound variable is accepted"
             sig = "pattern|reject"
-    line = dumps([A("pcompile")] + ENV + [[A("rxbad")] + rx_bad(text), [A("text"), text],
-                                        [A("probes")] + (_PENC if probes else [])])
-    d = f"pattern text={text!r}" + (f" compiled right after {list(pre)!r}" if pre else "")
+    line = dumps([A("pcompile")] + ps.env + [[A("rxbad")] + rx_bad(text), [A("text"), text],
+                                           [A("probes")] + (ps.penc if probes else [])])
+    d = (f"pattern text={text!r}" + (f" compiled right after {list(pre)!r}" if pre else "")
+         + ("" if cfg == "plain" else f" [config: {cfg}]"))
     return Case(kind, line, real, len(text) > 3, d, oracle_fail=oracle, sig=sig), real
 
 
@@ -236,33 +261,35 @@ def _els(xp):
     return [[e.ast_class.__name__, e.parent_field, e.parent_index, e.anywhere] for e in xp._elements_reversed]
 
 
-XPROBE = PROBES[4]
-_XT = _PTOK[4]
-_XNODES = [XPROBE] + [c for (c, p, f, i) in zoo.positions(XPROBE)]
 XREJECT = dumps([A("raise"), A("ASTXpathDefinitionError")])
 
 
-def observe_xpath(text: str):
-    try:
-        xp = ASTXpath(text)
-    except ASTXpathDefinitionError:
-        return XREJECT
-    except Exception as e:  # noqa
-        return f"OTHER({type(e).__name__})"
-    try:
-        found = list(xp.findall(XPROBE))
-        first = XPROBE.find(xp)
-        tree = Tree(XPROBE)
-        ms = [[_XT.tok(n), xp.match(tree, n)] for n in _XNODES]
-        return dumps([A("ok"), _els(xp), [_XT.tok(n) for n in found], _XT.tok(first) if first is not None else None, ms])
-    except Exception as e:  # noqa
-        return f"OTHER-USE({type(e).__name__})"
+def observe_xpath(text: str, ps=None, cfg: str = "plain"):
+    ps = ps or DEFAULT
+    with zoo_c08.configured(cfg):
+        try:
+            xp = ASTXpath(text)
+        except ASTXpathDefinitionError:
+            return XREJECT
+        except Exception as e:  # noqa
+            return f"OTHER({type(e).__name__})"
+        try:
+            xt = ps.ptok[ps.xi]
+            found = list(xp.findall(ps.xprobe))
+            first = ps.xprobe.find(xp)
+            tree = Tree(ps.xprobe)
+            ms = [[xt.tok(n), xp.match(tree, n)] for n in ps.xnodes]
+            return dumps([A("ok"), _els(xp), [xt.tok(n) for n in found], xt.tok(first) if first is not None else None, ms])
+        except Exception as e:  # noqa
+            return f"OTHER-USE({type(e).__name__})"
 
 
-def xpath_case(text: str, kind: str):
-    px._AST_XPATH_CACHE.pop(text, None)
-    real = observe_xpath(text)
-    again = observe_xpath(text)
+def xpath_case(text: str, kind: str, ps=None, cfg: str = "plain", forget: bool = True):
+    ps = ps or DEFAULT
+    if forget:
+        px._AST_XPATH_CACHE.pop(text, None)
+    real = observe_xpath(text, ps, cfg)
+    again = observe_xpath(text, ps, cfg)
     oracle = None
     sig = "xpath|model"
     if real.startswith("OTHER"):
@@ -271,8 +298,53 @@ def xpath_case(text: str, kind: str):
     elif again != real:
         oracle = f"second construction differs: {real} / {again}"
         sig = "xpath|recompile"
-    line = dumps([A("xpath")] + ENV[:2] + [[A("text"), text], [A("tree"), _PENC[4]]])
-    return Case(kind, line, real, len(text) > 3, f"xpath text={text!r}", oracle_fail=oracle, sig=sig), real
+    line = dumps([A("xpath")] + ps.env[:2] + [[A("text"), text], [A("tree"), ps.penc[ps.xi]]])
+    d = f"xpath text={text!r}" + ("" if cfg == "plain" else f" [config: {cfg}]")
+    return Case(kind, line, real, len(text) > 3, d, oracle_fail=oracle, sig=sig), real
+
+
+# ------------------------------------------------------------------ classes defined between two compilations
+
+_DYN = [0]
+_DYN_NS = {"dataclass": __import__("dataclasses").dataclass, "Leaf": zoo.Leaf, "__name__": "c17_dynamic_classes"}
+
+
+def dyn_class_cases(rng, cfg):
+    """texts naming a class that does not exist yet are rejected; once the class is defined (a fresh frozen
+    dataclass deriving from zoo.Leaf) the very same texts, and new ones, are accepted and behave per model"""
+    _DYN[0] += 1
+    name = f"Dyn{_DYN[0]}C{rng.randrange(10 ** 6)}"
+    xtexts = [f"/{name}", f"//{name}", f"/Tup/@items[0]{name}", f"//@items {name}"]
+    ptexts = [f"({name})", f'({name} @v="1" -> k)', f"(Leaf2|{name})", f"(Tup @items=[({name}) -> a *])"]
+    rng.shuffle(xtexts)
+    rng.shuffle(ptexts)
+    before_x, before_p = xtexts[:2], ptexts[:2]
+    for t in before_x:
+        c, _ = xpath_case(t, "xpath_before_class", cfg=cfg)
+        c.desc += f" (class {name} not defined yet)"
+        yield c
+    for t in before_p:
+        c, _ = pattern_case(t, "pattern_before_class", expect_accept=False, cfg=cfg)
+        c.desc += f" (class {name} not defined yet)"
+        yield c
+    exec(f"@dataclass(frozen=True)\nclass {name}(Leaf):\n    pass\n", _DYN_NS)
+    cls = _DYN_NS[name]
+    zoo_c08.register_leaf_class(cls)
+    o2 = CodeOrigin(_SRC2, get_code_range(0, 1, 0, 2, 1, 2))
+    ps = PSet([zoo.Tup((cls(v=1), zoo.Leaf(v=1), cls(v=2, s="ab", origin=o2))), cls(v=1, s="x"), zoo.Leaf2(v=1)],
+              extra_rows=[zoo_c08.class_row(cls)], xprobe=0)
+    # first the texts that were rejected before (not forgotten by the harness), then texts never seen
+    for t in before_x + xtexts[2:]:
+        c, _ = xpath_case(t, "xpath_after_class", ps=ps, cfg=cfg, forget=False)
+        c.desc += f" (class {name}(Leaf) defined" + (" after this text was first compiled)" if t in before_x else ")")
+        if c.real == XREJECT and not c.oracle_fail:
+            c.oracle_fail = "an xpath naming an existing node class is rejected"
+            c.sig = "xpath|accept"
+        yield c
+    for t in before_p + ptexts[2:]:
+        c, _ = pattern_case(t, "pattern_after_class", expect_accept=True, ps=ps, cfg=cfg)
+        c.desc += f" (class {name}(Leaf) defined" + (" after this text was first compiled)" if t in before_p else ")")
+        yield c
 
 
 # ------------------------------------------------------------------ text generators
@@ -460,13 +532,22 @@ def ws_twins(rng):
     return a1, a2, b1
 
 
+BAD_RX = ["(unclosed", "a)", "[a", "*a", "a**", "+", "(?P<x>a)(?P<x>b)", "a{2,1}", "(?z)"]
+BAD_REGEX_P = ['(Leaf @s="(unclosed")', '(Leaf @v="a)" -> k)', '(Tup @items=[(Leaf @s="[a") *])', '(* @s="*a" @v="1")']
+
+
 def cases(rng: random.Random, tier: str):
-    for t in FIXED_P:
-        yield pattern_case(t, "pattern_fixed")[0]
-    for t in FIXED_X:
-        yield xpath_case(t, "xpath_fixed")[0]
+    for cfg in zoo_c08.CONFIGS:
+        for t in FIXED_P + BAD_REGEX_P:
+            yield pattern_case(t, "pattern_fixed", cfg=cfg)[0]
+        for t in FIXED_X:
+            yield xpath_case(t, "xpath_fixed", cfg=cfg)[0]
     n = 330 if tier == "quick" else 12000
-    for _ in range(n):
+    for it in range(n):
+        # the whole iteration runs under one logging / tracing configuration (which must not matter)
+        cfg = zoo_c08.pick_config(rng)
+        if it % 4 == 0:
+            yield from dyn_class_cases(rng, cfg)
         # --- patterns: grammar-derived, two renderings, then mutations
         g = P8.PGen(rng, deviate=0.08)
         src = rng.choice(PROBES)
@@ -476,20 +557,20 @@ def cases(rng: random.Random, tier: str):
         wf = wellformed(p)
         t1 = P8.render(rng, toks)
         t2 = P8.render(rng, toks, spaced=rng.random() < 0.7)
-        c1, r1 = pattern_case(t1, "pattern_grammar", expect_accept=wf)
-        c2, r2 = pattern_case(t2, "pattern_grammar", expect_accept=wf)
+        c1, r1 = pattern_case(t1, "pattern_grammar", expect_accept=wf, cfg=cfg)
+        c2, r2 = pattern_case(t2, "pattern_grammar", expect_accept=wf, cfg=cfg)
         if r1 != r2 and not c2.oracle_fail:
             c2.oracle_fail = f"white space between tokens changes the meaning: {t1!r} -> {r1} but {t2!r} -> {r2}"
             c2.sig = "pattern|whitespace"
         yield c1
         yield c2
         for _ in range(3):
-            yield pattern_case(P8.render(rng, mutate(rng, toks, PTOKENS), spaced=rng.random() < 0.6), "pattern_mutant")[0]
+            yield pattern_case(P8.render(rng, mutate(rng, toks, PTOKENS), spaced=rng.random() < 0.6), "pattern_mutant", cfg=cfg)[0]
         # near-identical texts compiled back to back, both orders
         a1, a2, b1 = ws_twins(rng)
-        ca, ra_ = pattern_case(a1, "pattern_ws_twin", expect_accept=True, pre=(b1,))
-        cb, _ = pattern_case(b1, "pattern_ws_twin", expect_accept=True, pre=(a1, a2))
-        cc, rc_ = pattern_case(a2, "pattern_ws_twin", expect_accept=True, pre=(b1, a1))
+        ca, ra_ = pattern_case(a1, "pattern_ws_twin", expect_accept=True, pre=(b1,), cfg=cfg)
+        cb, _ = pattern_case(b1, "pattern_ws_twin", expect_accept=True, pre=(a1, a2), cfg=cfg)
+        cc, rc_ = pattern_case(a2, "pattern_ws_twin", expect_accept=True, pre=(b1, a1), cfg=cfg)
         if ra_ != rc_ and not cc.oracle_fail:
             cc.oracle_fail = f"white space between tokens changes the meaning: {a1!r} -> {ra_} but {a2!r} -> {rc_}"
             cc.sig = "pattern|whitespace"
@@ -497,22 +578,27 @@ def cases(rng: random.Random, tier: str):
         yield cb
         yield cc
         for _ in range(2):
-            yield pattern_case(random_text(rng, PTOKENS), "pattern_random")[0]
+            yield pattern_case(random_text(rng, PTOKENS), "pattern_random", cfg=cfg)[0]
         rp = rand_pat(rng, 1)
         yield pattern_case(P8.render(rng, P8.tokens_of(rp), spaced=rng.random() < 0.7), "pattern_grammar_blind",
-                           expect_accept=wellformed(rp))[0]
+                           expect_accept=wellformed(rp), cfg=cfg)[0]
+        # a grammatical pattern whose regex does not compile: rejected by every entry point, under every configuration
+        bt = [('"' + rng.choice(BAD_RX) + '"') if (x.startswith('"') and rng.random() < 0.7) else x for x in toks]
+        if bt == toks:
+            bt = ["(", "Leaf", "@", "s", "=", '"' + rng.choice(BAD_RX) + '"', ")"]
+        yield pattern_case(P8.render(rng, bt, spaced=rng.random() < 0.6), "pattern_bad_regex", expect_accept=False, cfg=cfg)[0]
         # --- xpaths
         xt = gen_xtokens(rng)
         x1 = xrender(rng, xt)
         x2 = xrender(rng, xt)
-        c1, r1 = xpath_case(x1, "xpath_grammar")
-        c2, r2 = xpath_case(x2, "xpath_grammar")
+        c1, r1 = xpath_case(x1, "xpath_grammar", cfg=cfg)
+        c2, r2 = xpath_case(x2, "xpath_grammar", cfg=cfg)
         if r1 != r2 and not c2.oracle_fail:
             c2.oracle_fail = f"white space between tokens changes the meaning: {x1!r} -> {r1} but {x2!r} -> {r2}"
             c2.sig = "xpath|whitespace"
         yield c1
         yield c2
         for _ in range(2):
-            yield xpath_case(xrender(rng, mutate(rng, xt, XTOKENS)), "xpath_mutant")[0]
+            yield xpath_case(xrender(rng, mutate(rng, xt, XTOKENS)), "xpath_mutant", cfg=cfg)[0]
         for _ in range(2):
-            yield xpath_case(random_text(rng, XTOKENS), "xpath_random")[0]
+            yield xpath_case(random_text(rng, XTOKENS), "xpath_random", cfg=cfg)[0]
